@@ -638,7 +638,6 @@ def behave_history(D, rng, xload=True):
             ops.setdefault(python_name(od['name']), set()).update({len(od['params']), sum(p['required'] for p in od['params'])})
     hist = []
     for ci, c in enumerate(D['classes']):
-        hist.append(['mro', ci])
         for n in fnames:
             hist.append(['get', ci, n])
             hist.append(['isset', ci, n])
@@ -651,7 +650,7 @@ def behave_history(D, rng, xload=True):
         for pn in sorted(ops):
             for k in sorted({0, max(ops[pn]) + 1} | ops[pn]):
                 hist.append(['call', ci, pn, k])
-        hist.append(['state', ci])
+        hist += [['state', ci], ['mro', ci]]
     if xload:
         multi = [ci for ci, c in enumerate(D['classes']) if len(c['supers']) > 1] or [len(D['classes']) - 1]
         hist.append(['xload', rng.choice(multi)])
